@@ -318,12 +318,83 @@ def opRgCache (args : List String) : Option String := do
   | _ => none
 end CacheOps
 
-def dispatch (op : String) (args : List String) : String :=
+/-! ### C02 delay-and-sum -/
+section DasOps
+open Arim.Das Arim.Num
+
+def interp? (s : String) : Option Interp :=
+  match s.toList with
+  | ['n'] => some .nearest
+  | ['l'] => some .linear
+  | 'z' :: r => (String.ofList r).toNat?.map Interp.lanczos
+  | _ => none
+
+def mat2 {γ : Type} (m : List (List γ)) (dflt : γ) : Nat → Nat → γ :=
+  let a := (m.map List.toArray).toArray
+  fun i j => (a.getD i #[]).getD j dflt
+
+def zip2 {γ : Type} (re im : List (List γ)) : List (List (γ × γ)) :=
+  (re.zip im).map (fun (r, i) => r.zip i)
+
+/-- generic body, instantiated at Rat and Float -/
+def dasRun {α : Type} [Add α] [Sub α] [Mul α] [Div α] [LT α] [DecidableLT α]
+    (ops : Ops α) (d : Data α (α × α)) (zero : α) (num? : String → Option α) (mat? : String → Option (List (List α)))
+    (lst? : String → Option (List α)) (shw : α → String) (args : List String) : Option String := do
+  match args with
+  | [amp, it, fre, fim, t0, dt, tx, rx, gre, gim, ltx, lrx, atre, atim, arre, arim, w] =>
+    let it ← interp? it
+    let fre ← num? fre; let fim ← num? fim; let t0 ← num? t0; let dt ← num? dt
+    let tx ← natList? tx; let rx ← natList? rx
+    let gre ← mat? gre; let gim ← mat? gim
+    let ltx ← mat? ltx; let lrx ← mat? lrx
+    let g0 := mat2 (zip2 gre gim) (zero, zero)
+    let wOpt : Option (Nat → α) ← (if w == "-" then some none else (lst? w).map (fun l => some (fun k => l.toArray.getD k zero)))
+    let n := (gre.head?.map List.length).getD 0
+    let p : Problem α (α × α) := {
+      N := tx.length
+      n := n
+      tx := (fun k => tx.toArray.getD k 0)
+      rx := (fun k => rx.toArray.getD k 0)
+      g := weigh d wOpt g0
+      ltTx := mat2 ltx zero
+      ltRx := mat2 lrx zero
+      t0 := t0
+      dt := dt }
+    let npts := ltx.length
+    let res ← (if amp == "1" then do
+        let atre ← mat? atre; let atim ← mat? atim; let arre ← mat? arre; let arim ← mat? arim
+        let aT := mat2 (zip2 atre atim) (zero, zero)
+        let aR := mat2 (zip2 arre arim) (zero, zero)
+        pure ((List.range npts).map (fun pt => dasAmp ops d p aT aR it (fre, fim) pt))
+      else pure ((List.range npts).map (fun pt => dasNoAmp ops d p it (fre, fim) pt)))
+    pure (join (res.map (fun v => shw v.1 ++ ":" ++ shw v.2)))
+  | _ => none
+
+def opDas (args : List String) : Option String :=
+  match args with
+  | "q" :: rest => dasRun ratOps cratData (0 : Rat) rat? ratMat? ratList? showRat rest
+  | "f" :: rest => dasRun floatOps cfloatData (0 : Float) float? floatMat? floatList? showFloat rest
+  | _ => none
+
+def opDispatch (args : List String) : Option String := do
+  match args with
+  | [amp, agg, it, c128] =>
+    let it ← interp? it
+    let agg ← (match agg with | "mean" => some Agg.mean | "median" => some Agg.median | "huber" => some Agg.huber | _ => none)
+    pure (match dispatch (amp == "1") agg it (c128 == "1") with
+      | .ok k => (toString (repr k)).replace "Arim.Das.Kernel." ""
+      | .error e => "err:" ++ (toString (repr e)).replace "Arim.Das.DErr." "")
+  | _ => none
+end DasOps
+
+def route (op : String) (args : List String) : String :=
   let r : Option String :=
     match op with
     | "fermat" => opFermat args
     | "minplus" => opMinPlus args
     | "chunks" => opChunks args
+    | "das" => opDas args
+    | "dasdispatch" => opDispatch args
     | "rgcache" => opRgCache args
     | "viewnames" => opViewnames args
     | "recip" => opRecip args
@@ -345,7 +416,7 @@ partial def loop (h : IO.FS.Stream) (out : IO.FS.Stream) : IO Unit := do
   let ws := (line.trimAscii.toString.splitOn " ").filter (· ≠ "")
   match ws with
   | [] => out.putStrLn "err Empty"
-  | op :: args => out.putStrLn (dispatch op args)
+  | op :: args => out.putStrLn (route op args)
   loop h out
 
 def main : IO Unit := do
